@@ -121,7 +121,9 @@ def step (_ : Unit) (pre post : List String) : Unit × Verdict :=
           -- property: exact value or failure on overflow
           match post with
           | ["PANIC"] => if inr z && op != "iquo" && op != "imod" then .propfail "int-panics-in-range" s!"{op} {x} {y}" else cmpRes (optInt m) post
-          | [r] => if r.toInt? != some z then .propfail "int-inexact" s!"{op} {x} {y} impl={r}" else cmpRes (optInt m) post
+          | [r] => if r.toInt? != some z then .propfail "int-inexact" s!"{op} {x} {y} impl={r}"
+                   else if !inr z then .propfail "int-overflow-not-reported" s!"{op} {x} {y} impl={r} needs {Int256.bitLen z} bits"
+                   else cmpRes (optInt m) post
           | _ => .bad "arity"
         match op with
         | "iadd" => exact (a + b) (Int256.add a b)
